@@ -239,6 +239,13 @@ def run(c, chk):
     # ---- R18.6 ---------------------------------------------------------------------------------
     user_object_released(c, chk, ex)
 
+    # ---- R18.7: a callee that fails for want of memory is a refusal like any other: the caller's revert is complete ----
+    from . import c10, c08
+    chk.rule('R18.7', 'when a callee reports failure (which includes an allocation that failed inside it) after the caller has started to change '
+             'the option, the caller restores every touched location and releases what it built (the refusal analysis of C10)')
+    n7 = c10.analyse(c, c08.chk_proxy(chk, {'R10.1': 'R18.7', 'R10.2': 'R18.7'}), 'R10.1', 'R10.2')
+    chk.floor('R18.7 refusing paths', n7, 40)
+
     # ---- R18.4 ---------------------------------------------------------------------------------
     term = ('abort', 'exit', '_exit', '__assert_fail')
     nterm = 0
